@@ -356,3 +356,60 @@ class launcher_render:
         else:
             yield "at-most-one-pop-up-request-for-the-pop-up-widget", both(len(asked) <= 1, eq(asked[0][1], val(old._pop_up_widget)) if asked else True)
         yield "frame", both(eq(s._original_widget, old._original_widget), opt_eq(s._pop_up_widget, old._pop_up_widget))
+
+
+# ============================================================================================ Widget.pack / Widget.sizing as the leaves inherit them
+from urwid.widget.widget import WidgetError  # noqa: E402
+
+WP = "urwid/widget/widget.py:"
+
+
+def _inherited_pack(alias, shape, modes, rows_contract, wf):
+    """`Widget.pack` as inherited by a leaf class whose `_sizing` is `modes`: a box size is returned as it is, a flow
+    size gives (maxcol, rows) for a flow widget; a size of a mode the widget does not support raises WidgetError
+    (the documented error) and nothing else."""
+    @contract(WP + "Widget.pack", property="C01", alias=alias, replayable=False, inline=(WP + "Widget.sizing",))
+    class _p:
+        self_shape = shape
+        params = dict(size=ANYSIZE, focus=Bool)
+        result = Tup(Int, Int)
+        raises = (WidgetError,)
+
+        def requires(s, a):
+            return both(wf(s), size_ok(a.size))
+
+        def ensures(old, s, a, result):
+            if len(a.size) == 2:
+                yield "box-size-returned-as-given", both(result[0] == a.size[0], result[1] == a.size[1])
+            elif len(a.size) == 1:
+                yield "flow-size-accepted-only-by-a-flow-widget", Sizing.FLOW in modes
+                if rows_contract is not None:
+                    yield "flow-pack-is-maxcol-and-own-rows", both(result[0] == a.size[0], result[1] == rows_contract.spec_value(old, size=a.size, focus=a.focus))
+            else:
+                yield "fixed-size-never-answered-by-the-default", False
+
+        def on_raise(old, s, a, exc):
+            yield "only-for-a-mode-the-widget-does-not-report", either(both(len(a.size) == 0, Sizing.FIXED not in modes), both(len(a.size) == 1, Sizing.FLOW not in modes))
+
+    _p.__name__ = f"pack_{alias}"
+    return _p
+
+
+def _inherited_sizing(alias, shape, modes):
+    @contract(WP + "Widget.sizing", property="C01", alias=alias, replayable=False)
+    class _s:
+        self_shape = shape
+        params = {}
+        raises = ()
+
+        def ensures(old, s, a, result):
+            yield "exactly-the-modes-render-accepts", result == frozenset(modes)
+
+    _s.__name__ = f"sizing_{alias}"
+    return _s
+
+
+divider_pack = _inherited_pack("Divider", DIVIDER, (Sizing.FLOW,), divider_rows, divider_wf)
+divider_sizing = _inherited_sizing("Divider", DIVIDER, (Sizing.FLOW,))
+solidfill_pack = _inherited_pack("SolidFill", SOLIDFILL, (Sizing.BOX,), None, lambda s: True)
+solidfill_sizing = _inherited_sizing("SolidFill", SOLIDFILL, (Sizing.BOX,))
